@@ -1,5 +1,49 @@
+(* C16 -- Code is treated as unreachable or pointless only when it really is.
+   Property theorems only; every proof is `exact <lemma>`; Print Assumptions under each. *)
 From Coq Require Import List Bool.
-Require Import Pyrefact.FlowModel.
-Theorem placeholder : is_exception SRaise = true.
-Proof. reflexivity. Qed.
-Print Assumptions placeholder.
+Import ListNotations.
+Require Import Pyrefact.FlowModel Pyrefact.FlowProofs.
+
+(* T16.1  is_blocking is sound: a statement judged impossible to get past never completes normally,
+   for every statement tree, every behaviour of the unevaluable tests / iterables / calls
+   (context managers assumed not to swallow exceptions -- the tool's assumption). *)
+Theorem T16_1_blocking_sound :
+  forall s, is_blocking s PNone = true -> o_n (outcomes false s) = false.
+Proof. exact blocking_sound. Qed.
+Print Assumptions T16_1_blocking_sound.
+
+(* T16.1b  inside a loop body (the scan of `while True:` / `for x in <non-empty>:`) *)
+Theorem T16_1b_blocking_loop_sound :
+  forall s p, p <> PNone -> may_leave s = false -> is_blocking s p = true ->
+    o_n (outcomes false s) = false /\ o_b (outcomes false s) = false /\ o_c (outcomes false s) = false.
+Proof. exact blocking_loop_sound. Qed.
+Print Assumptions T16_1b_blocking_loop_sound.
+
+(* T16.1c  _may_leave_iteration is sound: no break/continue outcome when it answers False *)
+Theorem T16_1c_may_leave_sound :
+  forall sup s, may_leave s = false ->
+    o_b (outcomes sup s) = false /\ o_c (outcomes sup s) = false.
+Proof. exact may_leave_sound. Qed.
+Print Assumptions T16_1c_may_leave_sound.
+
+(* T16.2  delete_unreachable_code: what _iter_unreachable_nodes yields is preceded by a prefix of the
+   body that never completes normally *)
+Theorem T16_2_unreachable_sound :
+  forall body,
+    unreachable_from body = [] \/
+    exists pre s, body = pre ++ s :: unreachable_from body /\
+                  o_n (outcomes_block false (pre ++ [s])) = false.
+Proof. exact unreachable_sound. Qed.
+Print Assumptions T16_2_unreachable_sound.
+
+(* R16.2  refuted when a context manager may swallow an exception (known finding F16-2) ... *)
+Theorem R16_2_blocking_refuted_with_suppression :
+  exists s, is_blocking s PNone = true /\ o_n (outcomes true s) = true.
+Proof. exact blocking_refuted_with_suppression. Qed.
+Print Assumptions R16_2_blocking_refuted_with_suppression.
+
+(* ... and the guarded version that holds whatever context managers do *)
+Theorem T16_1_partial_no_with :
+  forall sup s, no_with s = true -> is_blocking s PNone = true -> o_n (outcomes sup s) = false.
+Proof. exact blocking_sound_no_with. Qed.
+Print Assumptions T16_1_partial_no_with.
